@@ -1,30 +1,26 @@
 /-
-C08 — NSEC denial of existence: soundness of `verify_nsec` (model: `Model/Nsec.lean`,
-specification: `Spec/Denial.lean`).
-
-FULL STATEMENT (what the property asks; NOT provable for the code as it is — see the
-counter-examples at the end of this file, one per known deviation class):
+C08 — NSEC denial of existence: SOUNDNESS of `verify_nsec` at full strength
+(model: `Model/Nsec.lean`, the code with the six repairs of /repo aa6d1e8, 3224d1f, f7f02bc,
+a5c3ba8, ced54a3, 4e1b3c6; specification: `Spec/Denial.lean`).
 
     theorem soundness (hwf : InputsWF q soa answers nsecs)
         (hsec : verifyNsec q qtype soa rcode answers nsecs = .secure)
         (Z : ZoneView) (hapex : ∀ s, soa = some s → canonKey s = Z.apex)
         (hZ : ConsistentWith nsecs Z) : Claim q qtype rcode answers Z
 
-That it is false is proved too: `C08Refute.lean` gives, for every deviation class, an input with
-`Unsound …` (model answers `Secure`, a consistent zone view falsifies the claim).
+for all names, all NSEC record sets and all zone views; no hypothesis about the input beyond
+well-formedness.  (Before the repairs only `soundness_partial` under `classify … = none` was
+provable and nine `Unsound` instances refuted the full statement; their inputs are now the
+regression theorems of `C08Cex.lean`.)
 
-COMPLETENESS (stated, not proved — there is no Lean model of the server side `nsec_zone` /
-`closest_nsec` / `nsec_records` / `build_authoritative_response`):
+COMPLETENESS (stated, not proved — there is no Lean model of which records
+`build_authoritative_response` attaches):
 
     ∀ Z signed, ∀ q qtype, verifyNsec q qtype (soaOf (serverResponse Z q qtype)) … = .secure
 
 It is validated end to end by the harness on the real code (signed `InMemoryZoneHandler` →
-`Catalog` → `DnssecDnsHandle`) and does NOT hold either: seven classes of server-generated
-proofs are rejected (known-findings C08-G1 … C08-G7).
-
-PROVED: `soundness_partial` — the same statement under the one additional decidable hypothesis
-`classify q qtype soa rcode answers nsecs = none` (no known deviation class applies to the
-input; `Nsec.classify`, mirrored by the harness and compared with it on every run).
+`Catalog` → `DnssecDnsHandle`) and does NOT hold: six classes of server-generated proofs are
+rejected (known-findings C08-G1, G2, G4 … G7).
 -/
 import HickoryVerif.Proofs.C08Zone
 
@@ -42,18 +38,6 @@ structure InputsWF (q : Name) (soa : Option Name) (answers : List Ans) (nsecs : 
 
 /-! ### booleans of the model as propositions on keys -/
 
-theorem strictlyBelow_iff (a k : Key) : strictlyBelow a k = true ↔ (a <+: k ∧ a ≠ k) := by
-  unfold strictlyBelow
-  rw [Bool.and_eq_true, List.isPrefixOf_iff_prefix, decide_eq_true_iff]
-  constructor
-  · rintro ⟨h1, h2⟩
-    exact ⟨h1, fun h => by rw [h] at h2; exact Nat.lt_irrefl _ h2⟩
-  · rintro ⟨h1, h2⟩
-    refine ⟨h1, ?_⟩
-    rcases Nat.lt_or_ge a.length k.length with h | h
-    · exact h
-    · exact absurd (List.IsPrefix.eq_of_length_le h1 h) h2
-
 theorem isDelegation_iff (T : List Nat) : isDelegation T = true ↔ IsAncestorDelegation T := by
   unfold isDelegation IsAncestorDelegation TYPE_NS TYPE_SOA
   simp
@@ -69,26 +53,45 @@ theorem isSoa_iff {soa : Option Name} {n : Name} (hn : n.fqdn = true)
   | none => simp
   | some s => simp [eq_iff_key hn (hs s rfl)]
 
+/-- `is_strict_descendant(name, ancestor)` on keys -/
+theorem isStrictDescendant_false {name anc : Name} (hn : name.fqdn = true) (ha : anc.fqdn = true)
+    (h : isStrictDescendant name anc = false) : ¬ (K anc <+: K name ∧ K anc ≠ K name) := by
+  rintro ⟨h1, h2⟩
+  unfold isStrictDescendant at h
+  have hz : anc.zoneOf name = true := (zoneOf_iff _ _).2 h1
+  have he : Name.eq name anc = false := by
+    rw [Bool.eq_false_iff]
+    intro he
+    exact h2 ((eq_iff_key hn ha).1 he).symm
+  rw [hz, he] at h
+  cases h
+
 theorem covers_iff {soa : Option Name} {t : Name} {r : Nsec} (ht : t.fqdn = true)
     (hr : r.owner.fqdn = true ∧ r.next.fqdn = true) (hs : ∀ s, soa = some s → s.fqdn = true) :
     covers soa t r = true ↔
-      (K r.owner < K t ∧ (K t < K r.next ∨ ∃ s, soa = some s ∧ K r.next = K s)) := by
+      ((K r.owner < K t ∧ (K t < K r.next ∨ ∃ s, soa = some s ∧ K r.next = K s)) ∧
+        ¬ (IsAncestorDelegation r.types ∧ K r.owner <+: K t)) := by
   unfold covers
-  rw [Bool.and_eq_true, Bool.or_eq_true, gt_iff ht hr.1, lt_iff ht hr.2, isSoa_iff hr.2 hs]
+  rw [Bool.and_eq_true, Bool.and_eq_true, Bool.or_eq_true, gt_iff ht hr.1, lt_iff ht hr.2,
+    isSoa_iff hr.2 hs]
+  simp only [Bool.not_eq_eq_eq_not, Bool.not_true, Bool.and_eq_false_imp, isDelegation_iff,
+    not_and, ← zoneOf_iff, Bool.not_eq_true]
 
 theorem findCovering_some {soa : Option Name} {t : Name} {nsecs : List Nsec} {r : Nsec}
     (h : findCovering soa t nsecs = some r) : r ∈ nsecs ∧ covers soa t r = true := by
   unfold findCovering at h
   exact ⟨List.mem_of_find?_eq_some h, by simpa using List.find?_some h⟩
 
-/-- a cover found by the code is a cover in every zone view whose apex is the SOA owner -/
+/-- a cover found by the code is a cover in every zone view whose apex is the SOA owner, and it
+is not an ancestor-delegation record above the covered name -/
 theorem coversIn_of_covers {soa : Option Name} {t : Name} {r : Nsec} {Z : ZoneView}
     (ht : t.fqdn = true) (hr : r.owner.fqdn = true ∧ r.next.fqdn = true)
     (hs : ∀ s, soa = some s → s.fqdn = true)
     (hapex : ∀ s, soa = some s → K s = Z.apex) (hin : ∀ s, soa = some s → K s <+: K t)
-    (h : covers soa t r = true) : CoversIn Z (K t) r := by
-  obtain ⟨h1, h2⟩ := (covers_iff ht hr hs).1 h
-  refine ⟨h1, ?_⟩
+    (h : covers soa t r = true) :
+    CoversIn Z (K t) r ∧ ¬ (IsAncestorDelegation r.types ∧ K r.owner <+: K t) := by
+  obtain ⟨⟨h1, h2⟩, h3⟩ := (covers_iff ht hr hs).1 h
+  refine ⟨⟨h1, ?_⟩, h3⟩
   rcases h2 with h2 | ⟨s, hs1, hs2⟩
   · exact Or.inl h2
   · right
@@ -97,22 +100,25 @@ theorem coversIn_of_covers {soa : Option Name} {t : Name} {r : Nsec} {Z : ZoneVi
 
 /-! ### inversion of the model: what a `Secure` verdict went through -/
 
-/-- the starting value of `next_closest_encloser` -/
-def startOf (q : Name) (soa : Option Name) : Option Name :=
-  match soa with
-  | some s => if !s.zoneOf q then none else some s
-  | none => some (baseNameT q)
-
-theorem startOf_some {q : Name} {soa : Option Name} {nce0 : Name}
-    (h : startOf q soa = some nce0) :
-    nce0 = startName q soa ∧ K nce0 <+: K q ∧
-      (∀ s, soa = some s → K s <+: K q) := by
+theorem startOf_some {q : Name} {soa : Option Name} {ha : Bool} {nce0 : Name}
+    (hq : q.fqdn = true) (hsf : ∀ s, soa = some s → s.fqdn = true)
+    (h : startOf q soa ha = some nce0) :
+    K nce0 <+: K q ∧ nce0.fqdn = true ∧ (∀ s, soa = some s → nce0 = s ∧ K s <+: K q) ∧
+      (soa = none → ha = false → nce0 = Name.root) := by
   unfold startOf at h
   cases soa with
   | none =>
-    simp only [Option.some.injEq] at h
-    subst h
-    exact ⟨rfl, key_baseNameT_prefix q, fun s hs => by cases hs⟩
+    simp only at h
+    cases ha with
+    | true =>
+      simp only [if_true, Option.some.injEq] at h
+      subst h
+      exact ⟨key_baseNameT_prefix q, baseNameT_fqdn hq, (fun s hs => by cases hs),
+        (fun _ hf => by cases hf)⟩
+    | false =>
+      simp only [Bool.false_eq_true, if_false, Option.some.injEq] at h
+      subst h
+      exact ⟨List.nil_prefix, rfl, (fun s hs => by cases hs), (fun _ _ => rfl)⟩
   | some s =>
     simp only at h
     split at h
@@ -122,17 +128,19 @@ theorem startOf_some {q : Name} {soa : Option Name} {nce0 : Name}
       subst h
       have : s.zoneOf q = true := by simpa using hz
       have := (zoneOf_iff _ _).1 this
-      exact ⟨rfl, this, fun s' hs' => by cases hs'; exact this⟩
+      exact ⟨this, hsf s rfl, (fun s' hs' => by cases hs'; exact ⟨rfl, this⟩),
+        (fun hn => by cases hn)⟩
 
 inductive SecurePath (q : Name) (qtype : Nat) (soa : Option Name) (rcode : Nat)
     (answers : List Ans) (nsecs : List Nsec) : Prop where
   /-- "direct match" -/
   | direct (r : Nsec) (hfind : nsecs.find? (fun r => Name.eq q r.owner) = some r)
-      (hq : hasType r qtype = false) (hc : hasType r TYPE_CNAME = false)
+      (hq : hasType r qtype = false) (h47 : qtype ≠ 47) (h46 : qtype ≠ 46)
+      (hdel : IsAncestorDelegation r.types → qtype = 43)
       (hrc : rcode = 0) (hans : answers = []) : SecurePath q qtype soa rcode answers nsecs
   /-- the covering path -/
   | covered (n0 : Name) (c : Nsec)
-      (hstart : startOf q soa = some n0)
+      (hstart : startOf q soa (!answers.isEmpty) = some n0)
       (hfind : nsecs.find? (fun r => Name.eq q r.owner) = none)
       (hcov : findCovering soa q nsecs = some c)
       (hsec : verifyCovered q qtype soa rcode answers nsecs n0 c = .secure) :
@@ -141,22 +149,12 @@ inductive SecurePath (q : Name) (qtype : Nat) (soa : Option Name) (rcode : Nat)
 theorem verifyNsec_secure {q : Name} {qtype : Nat} {soa : Option Name} {rcode : Nat}
     {answers : List Ans} {nsecs : List Nsec}
     (h : verifyNsec q qtype soa rcode answers nsecs = .secure) :
-    (rcode = 3 ∨ rcode = 0) ∧ SecurePath q qtype soa rcode answers nsecs := by
+    SecurePath q qtype soa rcode answers nsecs := by
   unfold verifyNsec at h
   split at h
   · cases h
-  · rename_i hr
-    have hrc : rcode = 3 ∨ rcode = 0 := by
-      simp only [RCODE_NXDOMAIN, RCODE_NOERROR, Bool.and_eq_true, bne_iff_ne, ne_eq, not_and,
-        Decidable.not_not] at hr
-      by_cases h3 : rcode = 3
-      · exact Or.inl h3
-      · exact Or.inr (hr h3)
-    refine ⟨hrc, ?_⟩
-    change (match startOf q soa with
-      | none => Proof.bogus
-      | some nce0 => _) = Proof.secure at h
-    cases hs : startOf q soa with
+  · simp only at h
+    cases hs : startOf q soa (!answers.isEmpty) with
     | none => rw [hs] at h; cases h
     | some n0 =>
       rw [hs] at h
@@ -169,13 +167,19 @@ theorem verifyNsec_secure {q : Name} {qtype : Nat} {soa : Option Name} {rcode : 
         · cases h
         · rename_i ht
           split at h
-          · rename_i hok
-            simp only [Bool.or_eq_true, not_or, Bool.not_eq_true] at ht
-            simp only [RCODE_NOERROR, Bool.and_eq_true, beq_iff_eq,
-              Bool.not_eq_eq_eq_not, Bool.not_true] at hok
-            refine SecurePath.direct r hf ht.1 ht.2 hok.1 ?_
-            simpa using hok.2
           · cases h
+          · rename_i hd
+            split at h
+            · rename_i hok
+              simp only [TYPE_NSEC, TYPE_RRSIG, Bool.or_eq_true, beq_iff_eq, not_or,
+                Bool.not_eq_true] at ht
+              simp only [TYPE_DS, Bool.and_eq_true, bne_iff_ne, ne_eq, not_and, Decidable.not_not,
+                isDelegation_iff] at hd
+              simp only [RCODE_NOERROR, Bool.and_eq_true, beq_iff_eq,
+                Bool.not_eq_eq_eq_not, Bool.not_true] at hok
+              exact SecurePath.direct r hf ht.1.2 ht.1.1.1 ht.1.1.2 hd hok.1
+                (by simpa using hok.2)
+            · cases h
       | none =>
         rw [hf] at h
         simp only at h
@@ -191,10 +195,14 @@ inductive CoveredPath (q : Name) (qtype : Nat) (soa : Option Name) (rcode : Nat)
   /-- "no direct match, no wildcard" -/
   | nxdomain (wn : Name) (wcov : Nsec)
       (hw : prependStar (encloserStep q (encloserStep q n0 c.owner) c.next) = some wn)
-      (hwc : findCovering soa wn nsecs = some wcov) (hrc : rcode = 3) (hans : answers = []) :
+      (hwc : findCovering soa wn nsecs = some wcov) (hrc : rcode = 3) (hans : answers = [])
+      (hent : isStrictDescendant c.next q = false)
+      (hwent : isStrictDescendant wcov.next wn = false) :
       CoveredPath q qtype soa rcode answers nsecs n0 c
   /-- "covering wildcard present for wildcard expansion response" -/
   | answer (hrc : rcode = 0) (hans : answers ≠ [])
+      (hcl : closerEncloserExists q c.owner c.next
+        (wildcardBaseName q true answers nsecs) = false)
       (hncm : noCloserMatches q soa nsecs (wildcardBaseName q true answers nsecs) = true) :
       CoveredPath q qtype soa rcode answers nsecs n0 c
   /-- "no direct match, covering wildcard present" (wildcard no-data) -/
@@ -202,7 +210,8 @@ inductive CoveredPath (q : Name) (qtype : Nat) (soa : Option Name) (rcode : Nat)
       (hw : prependStar (encloserStep q (encloserStep q n0 c.owner) c.next) = some wn)
       (hwc : findCovering soa wn nsecs = none) (hrc : rcode = 0) (hans : answers = [])
       (hr : r ∈ nsecs) (heq : Name.eq r.owner wn = true) (hq : hasType r qtype = false)
-      (hcn : hasType r TYPE_CNAME = false) : CoveredPath q qtype soa rcode answers nsecs n0 c
+      (h47 : qtype ≠ 47) (h46 : qtype ≠ 46) (hdel : IsAncestorDelegation r.types → qtype = 43) :
+      CoveredPath q qtype soa rcode answers nsecs n0 c
 
 theorem verifyCovered_secure {q : Name} {qtype : Nat} {soa : Option Name} {rcode : Nat}
     {answers : List Ans} {nsecs : List Nsec} {n0 : Name} {c : Nsec}
@@ -215,6 +224,23 @@ theorem verifyCovered_secure {q : Name} {qtype : Nat} {soa : Option Name} {rcode
   | some wn =>
     rw [hw] at h
     simp only at h
+    have answerCase : (rcode == RCODE_NOERROR && !answers.isEmpty && !isStrictDescendant c.next q
+        && !closerEncloserExists q c.owner c.next (wildcardBaseName q (!answers.isEmpty) answers nsecs)
+        && noCloserMatches q soa nsecs (wildcardBaseName q (!answers.isEmpty) answers nsecs)
+        && (findCovering soa q nsecs).isSome) = true →
+        CoveredPath q qtype soa rcode answers nsecs n0 c := by
+      intro h2
+      simp only [RCODE_NOERROR, Bool.and_eq_true, beq_iff_eq, Bool.not_eq_eq_eq_not,
+        Bool.not_true] at h2
+      obtain ⟨⟨⟨⟨⟨h21, h22⟩, _⟩, h24⟩, h25⟩, _⟩ := h2
+      have hne : answers ≠ [] := by
+        intro he; rw [he] at h22; simp at h22
+      have hb : (!answers.isEmpty) = true := by
+        cases answers with
+        | nil => exact absurd rfl hne
+        | cons a as => rfl
+      rw [hb] at h24 h25
+      exact CoveredPath.answer h21 hne h24 h25
     cases hwc : findCovering soa wn nsecs with
     | some wcov =>
       rw [hwc] at h
@@ -222,186 +248,29 @@ theorem verifyCovered_secure {q : Name} {qtype : Nat} {soa : Option Name} {rcode
       split at h
       · rename_i h1
         simp only [RCODE_NXDOMAIN, Bool.and_eq_true, beq_iff_eq, Bool.not_eq_eq_eq_not,
-          Bool.not_true, Bool.not_eq_false] at h1
-        exact CoveredPath.nxdomain wn wcov hw hwc h1.1
-          (by simpa using h1.2)
+          Bool.not_true] at h1
+        obtain ⟨⟨⟨h11, h12⟩, h13⟩, h14⟩ := h1
+        exact CoveredPath.nxdomain wn wcov hw hwc h11 (by simpa using h12) h13 h14
       · split at h
-        · rename_i h2
-          simp only [RCODE_NOERROR, Bool.and_eq_true, beq_iff_eq, Bool.not_eq_eq_eq_not,
-            Bool.not_true] at h2
-          obtain ⟨⟨⟨h21, h22⟩, h23⟩, _⟩ := h2
-          have hne : answers ≠ [] := by
-            intro he; rw [he] at h22; simp at h22
-          have hb : (!answers.isEmpty) = true := by
-            cases answers with
-            | nil => exact absurd rfl hne
-            | cons a as => rfl
-          rw [hb] at h23
-          exact CoveredPath.answer h21 hne h23
+        · rename_i h2; exact answerCase h2
         · cases h
     | none =>
       rw [hwc] at h
       simp only at h
       split at h
       · rename_i h3
-        simp only [RCODE_NOERROR, Bool.and_eq_true, Bool.not_eq_eq_eq_not, Bool.not_true,
-          Bool.not_eq_false, beq_iff_eq, List.any_eq_true] at h3
+        simp only [RCODE_NOERROR, TYPE_NSEC, TYPE_RRSIG, TYPE_DS, Bool.and_eq_true,
+          Bool.not_eq_eq_eq_not, Bool.not_true, beq_iff_eq, List.any_eq_true, Bool.or_eq_true,
+          Bool.or_eq_false_iff, beq_eq_false_iff_ne, ne_eq, Bool.not_eq_false] at h3
         obtain ⟨⟨h31, h32⟩, r, hr, h33⟩ := h3
         have hans : answers = [] := by simpa using h31
-        obtain ⟨⟨⟨h331, h332⟩, h333⟩, _⟩ := h33
-        exact CoveredPath.nodata wn r hw hwc h32 hans hr h331 h332 h333
+        obtain ⟨⟨⟨⟨⟨g1, g2⟩, g3⟩, g4⟩, _⟩, _⟩ := h33
+        refine CoveredPath.nodata wn r hw hwc h32 hans hr g1 g4 g2.1 g2.2 ?_
+        intro hd
+        rcases g3 with g | g
+        · rw [(isDelegation_iff _).2 hd] at g; cases g
+        · exact g
       · cases h
-
-/-! ### inversion of `classify = none` -/
-
-theorem gate_false {rcode : Nat} (h : rcode = 3 ∨ rcode = 0) :
-    (rcode != RCODE_NXDOMAIN && rcode != RCODE_NOERROR) = false := by
-  rcases h with rfl | rfl <;> decide
-
-theorem classify_direct {q : Name} {qtype : Nat} {soa : Option Name} {rcode : Nat}
-    {answers : List Ans} {nsecs : List Nsec} {r : Nsec} (hrc : rcode = 3 ∨ rcode = 0)
-    (hf : nsecs.find? (fun r => Name.eq q r.owner) = some r)
-    (hcls : classify q qtype soa rcode answers nsecs = none) :
-    (IsAncestorDelegation r.types → qtype = 43) ∧ qtype ≠ 46 ∧ qtype ≠ 47 := by
-  unfold classify at hcls
-  rw [gate_false hrc, hf] at hcls
-  simp only [Bool.false_eq_true, if_false] at hcls
-  split at hcls
-  · cases hcls
-  · rename_i h1
-    split at hcls
-    · cases hcls
-    · rename_i h2
-      simp only [TYPE_DS, Bool.and_eq_true, bne_iff_ne, ne_eq, not_and, Decidable.not_not,
-        isDelegation_iff] at h1
-      simp only [TYPE_RRSIG, TYPE_NSEC, Bool.or_eq_true, beq_iff_eq, not_or] at h2
-      exact ⟨h1, h2.1, h2.2⟩
-
-theorem classify_covered {q : Name} {qtype : Nat} {soa : Option Name} {rcode : Nat}
-    {answers : List Ans} {nsecs : List Nsec} {c : Nsec} (hrc : rcode = 3 ∨ rcode = 0)
-    (hf : nsecs.find? (fun r => Name.eq q r.owner) = none)
-    (hc : findCovering soa q nsecs = some c)
-    (hcls : classify q qtype soa rcode answers nsecs = none) :
-    classifyCovered q qtype soa rcode answers nsecs c = none := by
-  unfold classify at hcls
-  rw [gate_false hrc, hf, hc] at hcls
-  simpa using hcls
-
-theorem codeEncloser_eq {q : Name} {soa : Option Name} {c : Nsec} {n0 : Name}
-    (hn0 : n0 = startName q soa) :
-    codeEncloser q soa c = encloserStep q (encloserStep q n0 c.owner) c.next := by
-  unfold codeEncloser; rw [hn0]; rfl
-
-/-- first check of `classifyCovered`: the covering record is not an ancestor-delegation record
-above the query name -/
-theorem classifyCovered_deleg {q : Name} {qtype : Nat} {soa : Option Name} {rcode : Nat}
-    {answers : List Ans} {nsecs : List Nsec} {c : Nsec}
-    (hcls : classifyCovered q qtype soa rcode answers nsecs c = none) :
-    ¬ (IsAncestorDelegation c.types ∧ K c.owner <+: K q ∧ K c.owner ≠ K q) := by
-  unfold classifyCovered at hcls
-  simp only at hcls
-  split at hcls
-  · cases hcls
-  · rename_i h1
-    simp only [Bool.and_eq_true, isDelegation_iff, strictlyBelow_iff, nkey_eq] at h1
-    exact h1
-
-theorem classifyCovered_answers {q : Name} {qtype : Nat} {soa : Option Name} {rcode : Nat}
-    {answers : List Ans} {nsecs : List Nsec} {c : Nsec} (hans : answers ≠ [])
-    (hcls : classifyCovered q qtype soa rcode answers nsecs c = none) :
-    ∀ wbn, wildcardBaseName q true answers nsecs = some wbn →
-      max (lcpLen (K q) (K c.owner)) (lcpLen (K q) (K c.next)) ≤ wbn.numLabels := by
-  unfold classifyCovered at hcls
-  simp only at hcls
-  split at hcls
-  · cases hcls
-  · have hb : (!answers.isEmpty) = true := by
-      cases answers with
-      | nil => exact absurd rfl hans
-      | cons a as => rfl
-    rw [if_pos hb] at hcls
-    split at hcls
-    · cases hcls
-    · intro wbn hw
-      rw [hw] at hcls
-      simp only at hcls
-      split at hcls
-      · cases hcls
-      · rename_i h3
-        simp only [nkey_eq] at h3
-        omega
-
-/-- the negative-response part of `classifyCovered = none` -/
-theorem classifyCovered_negative {q : Name} {qtype : Nat} {soa : Option Name} {rcode : Nat}
-    {answers : List Ans} {nsecs : List Nsec} {c : Nsec} {w : Name} (hans : answers = [])
-    (hw : prependStar (codeEncloser q soa c) = some w)
-    (hcls : classifyCovered q qtype soa rcode answers nsecs c = none) :
-    ¬ (soa = none ∧ K (codeEncloser q soa c) = K (baseNameT q) ∧
-        ¬ K (codeEncloser q soa c) <+: K c.owner ∧ ¬ K (codeEncloser q soa c) <+: K c.next) ∧
-    (rcode = 3 →
-      ¬ (K q <+: K c.next ∧ K q ≠ K c.next) ∧
-      ∀ wc, findCovering soa w nsecs = some wc →
-        ¬ (IsAncestorDelegation wc.types ∧ K wc.owner <+: K w ∧ K wc.owner ≠ K w) ∧
-        ¬ (K w <+: K wc.next ∧ K w ≠ K wc.next)) ∧
-    (rcode ≠ 3 → findCovering soa w nsecs = none →
-      ¬ K w <+: K q ∧
-      (qtype ≠ 43 → ∀ r ∈ nsecs, Name.eq r.owner w = true → ¬ IsAncestorDelegation r.types) ∧
-      qtype ≠ 46 ∧ qtype ≠ 47) := by
-  unfold classifyCovered at hcls
-  simp only at hcls
-  split at hcls
-  · cases hcls
-  · have hb : (!answers.isEmpty) = false := by rw [hans]; rfl
-    rw [if_neg (by rw [hb]; simp)] at hcls
-    split at hcls
-    · cases hcls
-    · rename_i h2
-      rw [hw] at hcls
-      simp only at hcls
-      refine ⟨?_, ?_, ?_⟩
-      · simp only [Bool.and_eq_true, Option.isNone_iff_eq_none, beq_iff_eq, Bool.not_eq_eq_eq_not,
-          Bool.not_true, nkey_eq] at h2
-        intro ⟨a1, a2, a3, a4⟩
-        have b3 : (K (codeEncloser q soa c)).isPrefixOf (K c.owner) = false := by
-          rw [Bool.eq_false_iff]; intro hh; exact a3 (List.isPrefixOf_iff_prefix.1 hh)
-        have b4 : (K (codeEncloser q soa c)).isPrefixOf (K c.next) = false := by
-          rw [Bool.eq_false_iff]; intro hh; exact a4 (List.isPrefixOf_iff_prefix.1 hh)
-        exact h2 ⟨⟨⟨a1, a2⟩, b3⟩, b4⟩
-      · intro hrc
-        rw [if_pos (by rw [hrc]; rfl)] at hcls
-        split at hcls
-        · cases hcls
-        · rename_i h3
-          simp only [strictlyBelow_iff, nkey_eq] at h3
-          refine ⟨h3, ?_⟩
-          intro wc hwc
-          rw [hwc] at hcls
-          simp only at hcls
-          split at hcls
-          · cases hcls
-          · rename_i h4
-            split at hcls
-            · cases hcls
-            · rename_i h5
-              simp only [Bool.and_eq_true, isDelegation_iff, strictlyBelow_iff, nkey_eq] at h4 h5
-              exact ⟨h4, h5⟩
-      · intro hrc hwc
-        rw [if_neg (by simpa [RCODE_NXDOMAIN] using hrc), hwc] at hcls
-        simp only at hcls
-        split at hcls
-        · cases hcls
-        · rename_i h6
-          split at hcls
-          · cases hcls
-          · rename_i h7
-            split at hcls
-            · cases hcls
-            · rename_i h8
-              simp only [nkey_eq, List.isPrefixOf_iff_prefix] at h6
-              simp only [TYPE_DS, Bool.and_eq_true, bne_iff_ne, ne_eq, List.any_eq_true,
-                isDelegation_iff, not_and, not_exists] at h7
-              simp only [TYPE_RRSIG, TYPE_NSEC, Bool.or_eq_true, beq_iff_eq, not_or] at h8
-              exact ⟨h6, fun hq r hr he hd => h7 hq r hr he hd, h8.1, h8.2⟩
 
 /-! ### the accepting arms -/
 
@@ -444,7 +313,7 @@ theorem sound_direct {q : Name} {qtype : Nat} {soa : Option Name} {nsecs : List 
     {r : Nsec} (hwf : InputsWF q soa [] nsecs)
     (hfind : nsecs.find? (fun r => Name.eq q r.owner) = some r)
     (hq : hasType r qtype = false)
-    (hcl : (IsAncestorDelegation r.types → qtype = 43) ∧ qtype ≠ 46 ∧ qtype ≠ 47)
+    (hdel : IsAncestorDelegation r.types → qtype = 43) (h46 : qtype ≠ 46) (h47 : qtype ≠ 47)
     (Z : ZoneView) (hZ : ConsistentWith nsecs Z) : Claim q qtype 0 [] Z := by
   have hr : r ∈ nsecs := List.mem_of_find?_eq_some hfind
   have heq : Name.eq q r.owner = true := by simpa using List.find?_some hfind
@@ -452,7 +321,7 @@ theorem sound_direct {q : Name} {qtype : Nat} {soa : Option Name} {nsecs : List 
   have hl := hZ r hr
   rw [claim_nodata_iff]
   refine ⟨?_, ?_⟩
-  · rw [hk]; exact no_type_of_link hl hq hcl.1 hcl.2.1 hcl.2.2
+  · rw [hk]; exact no_type_of_link hl hq hdel h46 h47
   · intro hne
     exact absurd ⟨K r.owner, link_owner_data hl, by rw [hk]; exact List.prefix_refl _⟩ hne
 
@@ -469,121 +338,89 @@ structure CoverCtx (q : Name) (soa : Option Name) (nsecs : List Nsec) (c : Nsec)
   ccov : CoversIn Z (K q) c
   cdel : ¬ (IsAncestorDelegation c.types ∧ K c.owner <+: K q)
 
-/-- the code's closest encloser exists in every consistent zone view -/
-theorem encloser_exists {q : Name} {soa : Option Name} {nsecs : List Nsec} {c : Nsec}
+/-- the starting name of a negative response exists in every consistent zone view: it is the
+apex, or the root -/
+theorem start_exists {q : Name} {soa : Option Name} {nsecs : List Nsec} {c : Nsec}
     {Z : ZoneView} (ctx : CoverCtx q soa nsecs c Z) {n0 : Name}
-    (hn0 : n0 = startName q soa)
-    (hfrom : codeEncloser q soa c = n0 ∨ K (codeEncloser q soa c) <+: K c.owner ∨
-      K (codeEncloser q soa c) <+: K c.next)
-    (hnosoa : ¬ (soa = none ∧ K (codeEncloser q soa c) = K (baseNameT q) ∧
-        ¬ K (codeEncloser q soa c) <+: K c.owner ∧ ¬ K (codeEncloser q soa c) <+: K c.next)) :
-    Z.Exists (K (codeEncloser q soa c)) := by
+    (hs : ∀ s, soa = some s → n0 = s ∧ K s <+: K q) (hn : soa = none → n0 = Name.root) :
+    Z.Exists (K n0) := by
   have hl := ctx.hZ c ctx.cmem
-  rcases hfrom with h | h | h
-  · have hso : (∃ s, soa = some s) ∨ soa = none := by cases soa <;> simp
-    rcases hso with ⟨s, hs⟩ | hs
-    · rw [hs] at hn0
-      simp only [startName] at hn0
-      rw [h, hn0, ctx.apex s hs]
-      exact ⟨K c.owner, link_owner_data hl, hl.1⟩
-    · rw [hs] at hn0
-      simp only [startName] at hn0
-      have hk : K (codeEncloser q soa c) = K (baseNameT q) := by rw [h, hn0]
-      by_cases h1 : K (codeEncloser q soa c) <+: K c.owner
-      · exact exists_of_prefix_link hl (Or.inl h1)
-      · by_cases h2 : K (codeEncloser q soa c) <+: K c.next
-        · exact exists_of_prefix_link hl (Or.inr h2)
-        · exact absurd ⟨hs, hk, h1, h2⟩ hnosoa
-  · exact exists_of_prefix_link hl (Or.inl h)
-  · exact exists_of_prefix_link hl (Or.inr h)
+  have hso : (∃ s, soa = some s) ∨ soa = none := by cases soa <;> simp
+  rcases hso with ⟨s, hss⟩ | hss
+  · rw [(hs s hss).1, ctx.apex s hss]
+    exact ⟨K c.owner, link_owner_data hl, hl.1⟩
+  · rw [hn hss]
+    exact ⟨K c.owner, link_owner_data hl, List.nil_prefix⟩
 
-/-- On the covering path the closest encloser of the (non-existent) query name in any
-consistent zone view is the one the code computed — or `*.<that>` when this is an ancestor of
-the query name. -/
+/-- On the covering path of a negative response, the closest encloser of the (non-existent)
+query name in any consistent zone view is the one the code computed. -/
 theorem closest_encloser_eq {q : Name} {soa : Option Name} {nsecs : List Nsec} {c : Nsec}
-    {Z : ZoneView} (ctx : CoverCtx q soa nsecs c Z) {n0 : Name}
-    (hn0 : n0 = startName q soa) (h0 : K n0 <+: K q)
-    (hex : Z.Exists (K (codeEncloser q soa c))) (hnq : ¬ Z.Exists (K q))
+    {Z : ZoneView} (ctx : CoverCtx q soa nsecs c Z) {n0 : Name} (h0 : K n0 <+: K q)
+    (hex0 : Z.Exists (K n0)) (hnq : ¬ Z.Exists (K q))
     {ce : Key} (hce : Z.ClosestEncloser ce (K q)) :
-    ce = K (codeEncloser q soa c) ∨ ce = K (codeEncloser q soa c) ++ [Spec.STAR] := by
-  obtain ⟨s1, _, _, _, s5⟩ := codeEncloser_spec (cov := c) hn0 h0
+    ce = K (encloserStep q (encloserStep q n0 c.owner) c.next) := by
+  obtain ⟨s1, _, s3, _, s5⟩ := encloser_spec (cov := c) h0
   obtain ⟨hc1, hc2, hc3, hc4⟩ := hce
   have hl := ctx.hZ c ctx.cmem
-  have hne : K (codeEncloser q soa c) ≠ K q := fun h => hnq (h ▸ hex)
-  have hge : (K (codeEncloser q soa c)).length ≤ ce.length := hc4 _ s1 hne hex
-  rcases s5 ce (ancestor_of_cover hl ctx.ccov ctx.cdel hc1 hc3) hc1 with h | h
-  · left
-    have h1 : ce <+: K (codeEncloser q soa c) := List.prefix_of_prefix_length_le hc1 s1 h
-    exact List.IsPrefix.eq_of_length_le h1 hge
-  · exact Or.inr h
+  have hex : Z.Exists (K (encloserStep q (encloserStep q n0 c.owner) c.next)) := by
+    rcases s3 with h | h | h
+    · rw [h]; exact hex0
+    · exact exists_of_prefix_link hl (Or.inl h)
+    · exact exists_of_prefix_link hl (Or.inr h)
+  have hne : K (encloserStep q (encloserStep q n0 c.owner) c.next) ≠ K q :=
+    fun h => hnq (h ▸ hex)
+  have hge := hc4 _ s1 hne hex
+  have hle := s5 ce (ancestor_of_cover hl ctx.ccov ctx.cdel hc1 hc3) hc1
+  exact List.IsPrefix.eq_of_length_le (List.prefix_of_prefix_length_le hc1 s1 hle) hge
 
 /-- "no direct match, no wildcard": NXDOMAIN -/
 theorem sound_nxdomain {q : Name} {qtype : Nat} {soa : Option Name} {nsecs : List Nsec}
     {c : Nsec} {Z : ZoneView} (ctx : CoverCtx q soa nsecs c Z) {n0 w : Name} {wc : Nsec}
-    (hn0 : n0 = startName q soa) (h0 : K n0 <+: K q)
-    (hn0f : n0.fqdn = true)
-    (hw : prependStar (codeEncloser q soa c) = some w)
+    (h0 : K n0 <+: K q) (hn0f : n0.fqdn = true)
+    (hs : ∀ s, soa = some s → n0 = s ∧ K s <+: K q) (hn : soa = none → n0 = Name.root)
+    (hw : prependStar (encloserStep q (encloserStep q n0 c.owner) c.next) = some w)
     (hwc : findCovering soa w nsecs = some wc)
-    (hnosoa : ¬ (soa = none ∧ K (codeEncloser q soa c) = K (baseNameT q) ∧
-        ¬ K (codeEncloser q soa c) <+: K c.owner ∧ ¬ K (codeEncloser q soa c) <+: K c.next))
-    (hent : ¬ (K q <+: K c.next ∧ K q ≠ K c.next))
-    (hwdel : ¬ (IsAncestorDelegation wc.types ∧ K wc.owner <+: K w ∧ K wc.owner ≠ K w))
-    (hwent : ¬ (K w <+: K wc.next ∧ K w ≠ K wc.next)) :
+    (hent : isStrictDescendant c.next q = false)
+    (hwent : isStrictDescendant wc.next w = false) :
     Claim q qtype 3 [] Z := by
-  obtain ⟨s1, s2, s3, s4, _⟩ := codeEncloser_spec (cov := c) hn0 h0
+  obtain ⟨s1, s2, _, s4, _⟩ := encloser_spec (cov := c) h0
   have hcf := ctx.nf c ctx.cmem
-  have hncef : (codeEncloser q soa c).fqdn = true := s4 hn0f hcf.1 hcf.2
+  have hncef := s4 hn0f hcf.1 hcf.2
   obtain ⟨hkw, hwf'⟩ := key_prependStar hw
   have hwfq : w.fqdn = true := by rw [hwf', hncef]
   obtain ⟨hwcm, hwcc⟩ := findCovering_some hwc
   have hwl := ctx.hZ wc hwcm
-  -- the SOA owner is above the wildcard name
   have hinw : ∀ s, soa = some s → K s <+: K w := by
-    intro s hs
-    have : n0 = s := by rw [hn0, hs]; rfl
-    have h1 : K s <+: K (codeEncloser q soa c) :=
-      List.prefix_of_prefix_length_le (ctx.inzone s hs) s1 (this ▸ s2)
+    intro s hss
+    have h1 : K s <+: K (encloserStep q (encloserStep q n0 c.owner) c.next) :=
+      List.prefix_of_prefix_length_le (ctx.inzone s hss) s1 ((hs s hss).1 ▸ s2)
     rw [hkw]; exact List.IsPrefix.trans h1 (List.prefix_append _ _)
-  have hwcov : CoversIn Z (K w) wc :=
-    coversIn_of_covers hwfq (ctx.nf wc hwcm) ctx.soaf ctx.apex hinw hwcc
+  obtain ⟨hwcov, hwdel⟩ :=
+    coversIn_of_covers (Z := Z) hwfq (ctx.nf wc hwcm) ctx.soaf ctx.apex hinw hwcc
   have hnq : ¬ Z.Exists (K q) :=
-    not_exists_of_cover (ctx.hZ c ctx.cmem) ctx.ccov hent ctx.cdel
-  have hnw : ¬ Z.Exists (K w) := by
-    apply not_exists_of_cover hwl hwcov hwent
-    rintro ⟨hd, hp⟩
-    refine hwdel ⟨hd, hp, ?_⟩
-    intro he
-    exact lt_irrefl _ (he ▸ hwcov.1)
-  have hex := encloser_exists ctx hn0 (by
-    rcases s3 with h | h | h
-    · exact Or.inl h
-    · exact Or.inr (Or.inl h)
-    · exact Or.inr (Or.inr h)) hnosoa
+    not_exists_of_cover (ctx.hZ c ctx.cmem) ctx.ccov
+      (isStrictDescendant_false hcf.2 ctx.qf hent) ctx.cdel
+  have hnw : ¬ Z.Exists (K w) :=
+    not_exists_of_cover hwl hwcov (isStrictDescendant_false (ctx.nf wc hwcm).2 hwfq hwent) hwdel
   rw [claim_nxdomain_iff]
   refine ⟨hnq, ?_⟩
   intro ce hce
-  rcases closest_encloser_eq ctx hn0 h0 hex hnq hce with h | h
-  · rw [h, ← hkw]; exact hnw
-  · exfalso
-    rw [← hkw] at h
-    exact hnw (h ▸ hce.2.2.1)
+  rw [closest_encloser_eq ctx h0 (start_exists ctx hs hn) hnq hce, ← hkw]
+  exact hnw
 
 /-- "no direct match, covering wildcard present": wildcard NODATA -/
 theorem sound_nodata {q : Name} {qtype : Nat} {soa : Option Name} {nsecs : List Nsec}
     {c : Nsec} {Z : ZoneView} (ctx : CoverCtx q soa nsecs c Z) {n0 w : Name} {r : Nsec}
-    (hn0 : n0 = startName q soa) (h0 : K n0 <+: K q)
-    (hn0f : n0.fqdn = true)
-    (hw : prependStar (codeEncloser q soa c) = some w)
+    (h0 : K n0 <+: K q) (hn0f : n0.fqdn = true)
+    (hs : ∀ s, soa = some s → n0 = s ∧ K s <+: K q) (hn : soa = none → n0 = Name.root)
+    (hw : prependStar (encloserStep q (encloserStep q n0 c.owner) c.next) = some w)
     (hr : r ∈ nsecs) (heq : Name.eq r.owner w = true) (hq : hasType r qtype = false)
-    (hnosoa : ¬ (soa = none ∧ K (codeEncloser q soa c) = K (baseNameT q) ∧
-        ¬ K (codeEncloser q soa c) <+: K c.owner ∧ ¬ K (codeEncloser q soa c) <+: K c.next))
-    (hquirk : ¬ K w <+: K q)
-    (hrdel : qtype ≠ 43 → ∀ r ∈ nsecs, Name.eq r.owner w = true → ¬ IsAncestorDelegation r.types)
+    (hrdel : IsAncestorDelegation r.types → qtype = 43)
     (h46 : qtype ≠ 46) (h47 : qtype ≠ 47) :
     Claim q qtype 0 [] Z := by
-  obtain ⟨s1, s2, s3, s4, _⟩ := codeEncloser_spec (cov := c) hn0 h0
+  obtain ⟨_, _, _, s4, _⟩ := encloser_spec (cov := c) h0
   have hcf := ctx.nf c ctx.cmem
-  have hncef : (codeEncloser q soa c).fqdn = true := s4 hn0f hcf.1 hcf.2
+  have hncef := s4 hn0f hcf.1 hcf.2
   obtain ⟨hkw, hwf'⟩ := key_prependStar hw
   have hwfq : w.fqdn = true := by rw [hwf', hncef]
   have hkr : K r.owner = K w := (eq_iff_key (ctx.nf r hr).1 hwfq).1 heq
@@ -591,21 +428,8 @@ theorem sound_nodata {q : Name} {qtype : Nat} {soa : Option Name} {nsecs : List 
   rw [claim_nodata_iff]
   refine ⟨fun hd => no_data_of_cover (ctx.hZ c ctx.cmem) ctx.ccov ctx.cdel ⟨qtype, hd⟩, ?_⟩
   intro hnq ce hce
-  have hex := encloser_exists ctx hn0 (by
-    rcases s3 with h | h | h
-    · exact Or.inl h
-    · exact Or.inr (Or.inl h)
-    · exact Or.inr (Or.inr h)) hnosoa
-  rcases closest_encloser_eq ctx hn0 h0 hex hnq hce with h | h
-  · rw [h, ← hkw, ← hkr]
-    apply no_type_of_link hrl hq _ h46 h47
-    intro hd
-    apply Classical.byContradiction
-    intro hne
-    exact hrdel hne r hr heq hd
-  · exfalso
-    rw [← hkw] at h
-    exact hquirk (h ▸ hce.1)
+  rw [closest_encloser_eq ctx h0 (start_exists ctx hs hn) hnq hce, ← hkw, ← hkr]
+  exact no_type_of_link hrl hq hrdel h46 h47
 
 theorem rfcLabels_append_star (k : Key) : rfcLabels (k ++ [Spec.STAR]) = k.length := by
   unfold rfcLabels; simp
@@ -645,8 +469,8 @@ theorem rrsigCandidate_numLabels {q : Name} {a : Ans} {lm : Nat} {wm : Name}
 theorem sound_answer {q : Name} {qtype : Nat} {soa : Option Name} {answers : List Ans}
     {nsecs : List Nsec} {c : Nsec} {Z : ZoneView} (ctx : CoverCtx q soa nsecs c Z)
     (hans : answers ≠ []) (hwfa : ∀ a ∈ answers, C04.Bounded a.name)
-    (hcl : ∀ wbn, wildcardBaseName q true answers nsecs = some wbn →
-      max (lcpLen (K q) (K c.owner)) (lcpLen (K q) (K c.next)) ≤ wbn.numLabels) :
+    (hcl : closerEncloserExists q c.owner c.next
+      (wildcardBaseName q true answers nsecs) = false) :
     Claim q qtype 0 answers Z := by
   rw [claim_answer_iff hans]
   intro a ha hsec l hl hka hlt p hp hlp hex
@@ -670,67 +494,81 @@ theorem sound_answer {q : Name} {qtype : Nat} {soa : Option Name} {answers : Lis
     unfold wildcardBaseName; simp [hy]
   obtain ⟨a', _, ha'⟩ := List.mem_filterMap.1 hym
   have hnum : y.2.numLabels = y.1 := rrsigCandidate_numLabels (a := a') (by rw [ha'])
-  have hbound := hcl y.2 hwbn
+  -- the wildcard's parent has `y.1` labels
+  have hbase : (baseNameT y.2).labels.length = y.1 := by
+    have h1 := numLabels_eq y.2
+    have h2 : y.2.isWildcard = true := by
+      have := ha'
+      unfold rrsigCandidate at this
+      split at this
+      · cases this
+      · split at this
+        · cases this
+        · split at this
+          · cases this
+          · simp only at this
+            split at this
+            · cases this
+            · split at this
+              · cases this
+              · rename_i w' hw'
+                simp only [Option.some.injEq] at this
+                rw [← this]
+                simp only
+                rw [isWildcard_iff, (key_prependStar hw').1]
+                simp
+    have h3 : (K (baseNameT y.2)).length = (K y.2).length - 1 := by
+      rw [key_baseNameT]; simp
+    rw [key_length, key_length] at h3
+    have h4 : y.2.numLabels = y.2.labels.length - 1 := by
+      unfold numLabels; rw [if_pos h2]
+    omega
+  rw [hwbn] at hcl
+  simp only [closerEncloserExists, Bool.or_eq_false_iff] at hcl
+  rw [hbase] at hcl
   have hl' := ctx.hZ c ctx.cmem
-  have hple : p.length ≤ max (lcpLen (K q) (K c.owner)) (lcpLen (K q) (K c.next)) := by
+  have hple : p.length ≤ y.1 := by
     rcases ancestor_of_cover hl' ctx.ccov ctx.cdel hp hex with h | h
-    · have := length_le_lcpLen hp h; omega
-    · have := length_le_lcpLen hp h; omega
+    · exact closerLoop_false q y.1 c.owner.labels c.owner.fqdn hcl.1 p h hp
+    · exact closerLoop_false q y.1 c.next.labels c.next.fqdn hcl.2 p h hp
   simp only at hyle
   omega
 
 /-! ### the theorem -/
 
-/-- **Soundness of NSEC denial of existence, for every input to which no known deviation class
-applies.**  If `verify_nsec` answers `Secure`, then every zone view whose NSEC chain contains
-the given records (and whose apex is the SOA owner, when the response carries one) satisfies
-the response's claim: the name does not exist and no wildcard matches it (NXDOMAIN); the type
-is absent at the name or at the matching wildcard (NODATA); nothing closer than the expanded
-wildcard exists (wildcard answer).  All names, all record sets, all zone views. -/
-theorem soundness_partial {q : Name} {qtype : Nat} {soa : Option Name} {rcode : Nat}
+/-- **Soundness of NSEC denial of existence.**  If `verify_nsec` answers `Secure`, then every
+zone view whose NSEC chain contains the given records (and whose apex is the SOA owner, when
+the response carries one) satisfies the response's claim: the name does not exist — not even
+as an empty non-terminal — and no wildcard matches it (NXDOMAIN); the type is absent at the
+name or at the matching wildcard (NODATA); nothing closer than the expanded wildcard exists
+(wildcard answer).  All names, all record sets, all zone views. -/
+theorem soundness {q : Name} {qtype : Nat} {soa : Option Name} {rcode : Nat}
     {answers : List Ans} {nsecs : List Nsec}
     (hwf : InputsWF q soa answers nsecs)
-    (hcls : classify q qtype soa rcode answers nsecs = none)
     (hsec : verifyNsec q qtype soa rcode answers nsecs = .secure)
     (Z : ZoneView) (hapex : ∀ s, soa = some s → canonKey s = Z.apex)
     (hZ : ConsistentWith nsecs Z) : Claim q qtype rcode answers Z := by
-  obtain ⟨hrc, hpath⟩ := verifyNsec_secure hsec
-  cases hpath with
-  | direct r hfind hq hc hrc0 hans =>
+  cases verifyNsec_secure hsec with
+  | direct r hfind hq h47 h46 hdel hrc0 hans =>
     subst hrc0; subst hans
-    exact sound_direct hwf hfind hq (classify_direct hrc hfind hcls) Z hZ
+    exact sound_direct hwf hfind hq hdel h46 h47 Z hZ
   | covered n0 c hstart hfind hcov hsec' =>
-    obtain ⟨hn0, h0, hinz⟩ := startOf_some hstart
+    obtain ⟨h0, hn0f, hs, hn⟩ := startOf_some hwf.q hwf.soa hstart
     obtain ⟨hcm, hcc⟩ := findCovering_some hcov
-    have hcc' := classify_covered hrc hfind hcov hcls
-    have hccov : CoversIn Z (K q) c :=
-      coversIn_of_covers hwf.q (hwf.nsecs c hcm) hwf.soa hapex hinz hcc
+    obtain ⟨hccov, hcdel⟩ := coversIn_of_covers (Z := Z) hwf.q (hwf.nsecs c hcm) hwf.soa hapex
+      (fun s hss => (hs s hss).2) hcc
     have ctx : CoverCtx q soa nsecs c Z :=
-      { qf := hwf.q, soaf := hwf.soa, nf := hwf.nsecs, apex := hapex, hZ := hZ, inzone := hinz,
-        cmem := hcm, ccov := hccov,
-        cdel := fun ⟨hd, hp⟩ => classifyCovered_deleg hcc'
-          ⟨hd, hp, fun he => lt_irrefl _ (he ▸ hccov.1)⟩ }
-    have hn0f : n0.fqdn = true := by
-      rw [hn0]; unfold startName
-      cases soa with
-      | some s => exact hwf.soa s rfl
-      | none => exact baseNameT_fqdn hwf.q
+      { qf := hwf.q, soaf := hwf.soa, nf := hwf.nsecs, apex := hapex, hZ := hZ,
+        inzone := fun s hss => (hs s hss).2, cmem := hcm, ccov := hccov, cdel := hcdel }
     cases verifyCovered_secure hsec' with
-    | nxdomain wn wcov hw hwc hrc3 hans =>
+    | nxdomain wn wcov hw hwc hrc3 hans hent hwent =>
       subst hrc3; subst hans
-      rw [← codeEncloser_eq hn0] at hw
-      obtain ⟨k1, k2, _⟩ := classifyCovered_negative rfl hw hcc'
-      obtain ⟨k21, k22⟩ := k2 rfl
-      obtain ⟨k221, k222⟩ := k22 wcov hwc
-      exact sound_nxdomain ctx hn0 h0 hn0f hw hwc k1 k21 k221 k222
-    | answer hrc0 hans hncm =>
+      exact sound_nxdomain ctx h0 hn0f hs (fun h => hn h rfl) hw hwc hent hwent
+    | answer hrc0 hans hcl hncm =>
       subst hrc0
-      exact sound_answer ctx hans hwf.answers (classifyCovered_answers hans hcc')
-    | nodata wn r hw hwc hrc0 hans hr heq hq hcn =>
+      exact sound_answer ctx hans hwf.answers hcl
+    | nodata wn r hw hwc hrc0 hans hr heq hq h47 h46 hdel =>
       subst hrc0; subst hans
-      rw [← codeEncloser_eq hn0] at hw
-      obtain ⟨k1, _, k3⟩ := classifyCovered_negative rfl hw hcc'
-      obtain ⟨k31, k32, k33, k34⟩ := k3 (by decide) hwc
-      exact sound_nodata ctx hn0 h0 hn0f hw hr heq hq k1 k31 k32 k33 k34
+      exact sound_nodata ctx h0 hn0f hs (fun h => hn h rfl) hw hr heq hq hdel h46 h47
 
 end HickoryVerif.C08
